@@ -221,7 +221,14 @@ fn ew1<N: SignBit>(pool: bool, op: &str, args: &[Arg]) -> Option<String> {
     for &x in &distinct(e1) {
         let v = single_val(call1(op, &Array::single(N::conv(pool, x)).unwrap())?);
         tbl.push(format!("{x}={v}"));
-        if is_float::<N>() { rf.push(format!("{x}={}", fref(ref1(op, N::conv(pool, x).to_f64())))); }
+        if op == "nan_to_num" {
+            // documented: "replace NaN with zero and infinity with large finite numbers"; every other value is kept as
+            // it is, in the element type (seeded change C05l: a round trip through f64 lost f32::MAX and large i64)
+            let e = N::conv(pool, x);
+            if !is_float::<N>() { rf.push(format!("{x}={}", e.to_lab())); }
+            else { let xf = e.to_f64(); rf.push(format!("{x}={}", if xf.is_nan() { fref(Some(0.0)) } else if xf.is_infinite() { "big".into() } else { fref(Some(xf)) })); }
+        }
+        else if is_float::<N>() { rf.push(format!("{x}={}", fref(ref1(op, N::conv(pool, x).to_f64())))); }
         else if INT_REF1.contains(&op) { rf.push(format!("{x}={}", iref::<N>(ref1(op, N::conv(pool, x).to_f64())))); }
     }
     Some(format!("{}|tbl({})|{}({})", res_arr(&r), tbl.join(";"), ref_tag::<N>(), rf.join(";")))
@@ -268,6 +275,7 @@ macro_rules! num_type {
             "i32" => { type $N = i32; let $pool = false; $body }
             "i64" => { type $N = i64; let $pool = false; $body }
             "u8" => { type $N = u8; let $pool = false; $body }
+            "u64" => { type $N = u64; let $pool = false; $body }
             "f64" => { type $N = f64; let $pool = false; $body }
             "f32" => { type $N = f32; let $pool = false; $body }
             "f64p" => { type $N = f64; let $pool = true; $body }
